@@ -197,7 +197,7 @@ PROPS = {
             'limits, at the relief thresholds (1.1,1.4,1.6,1.8 x), tied with shard 0 on purpose; idle ages 30s..100000s vs max-idle 0/60/3600; '
             'min/max shard around the current count; explorer results present/absent/bad/unknown; failing POSTs and failing early scale request; '
             'malformed stream: min>max, max_proc=0. Membership under ALL schedules of the model (enumerated, budget 6000). non-trivial = the cycle '
-            'sent at least one target POST or requested a scale different from the current count; distinct by input || coordinatorbinary, in every run (25 s): `kvass` is built from the working tree and `kvass coordinator` is started with a static shard file (a stub sidecar), a configuration file with three static targets over two jobs pointing at a real HTTP target of 100 samples, a 300 ms period: the API lists the targets, the shard is given them with their explored sizes, a reload that removes a job removes its target from the API at once, a reload that restores it brings it back; a second process with --shard.max-head-series=1500 --shard.max-process-series=1000 and a shard reporting 1450 head series places nothing',
+            'sent at least one target POST or requested a scale different from the current count; distinct by input || coordinatorbinary, in every run (35 s): `kvass` is built from the working tree and `kvass coordinator` is started with a static shard file (a stub sidecar), a configuration file with three static targets over two jobs pointing at a real HTTP target of 100 samples, a 300 ms period: the API lists the targets, the shard is given them with their explored sizes, a reload that removes a job removes its target from the API at once, a reload that restores it brings it back; a second process with --shard.max-head-series=1500 --shard.max-process-series=1000 and a shard reporting 1450 head series places nothing; a third process with --shard.max-process-series=350 and a shard reporting 200 process series places exactly one of the targets (200+100 fits, 300+100 does not)',
     'theorems': 'C04_fits C04_running_load C04_reported_plus_placed_fits C04_oversized_never_assigned C04_oversized_adds_no_need',
     'trusted_base': [   'model Model/Coordinator.v hand-written from rebalance.go/coordinator.go/shard.go; tie = differential run of the real '
                         'Coordinator (hook VerifRunOnce) against scripted shards through Shard.APIGet/APIPost, compared under every schedule of the '
@@ -422,7 +422,7 @@ PROPS = {
                 'version keep-all or drop-marked), full and partial updates (0-2 groups x 0-3 targets per job, addresses disjoint between jobs, 1/4 '
                 'marked for dropping, duplicates inside and across groups), updates for an unknown job. Observed after every op: ActiveTargets, '
                 'DropTargets, ActiveTargetsByHash, which hashes Explore.Get knows; WaitInit at the end; every map returned by a reader is HELD and '
-                're-compared at the end of the history (snapshot). non-trivial = >= 3 ops; distinct by input || coordinatorbinary, in every run (25 s): `kvass` is built from the working tree and `kvass coordinator` is started with a static shard file (a stub sidecar), a configuration file with three static targets over two jobs pointing at a real HTTP target of 100 samples, a 300 ms period: the API lists the targets, the shard is given them with their explored sizes, a reload that removes a job removes its target from the API at once, a reload that restores it brings it back; a second process with --shard.max-head-series=1500 --shard.max-process-series=1000 and a shard reporting 1450 head series places nothing',
+                're-compared at the end of the history (snapshot). non-trivial = >= 3 ops; distinct by input || coordinatorbinary, in every run (35 s): `kvass` is built from the working tree and `kvass coordinator` is started with a static shard file (a stub sidecar), a configuration file with three static targets over two jobs pointing at a real HTTP target of 100 samples, a 300 ms period: the API lists the targets, the shard is given them with their explored sizes, a reload that removes a job removes its target from the API at once, a reload that restores it brings it back; a second process with --shard.max-head-series=1500 --shard.max-process-series=1000 and a shard reporting 1450 head series places nothing; a third process with --shard.max-process-series=350 and a shard reporting 200 process series places exactly one of the targets (200+100 fits, 300+100 does not)',
         'theorems': 'C17_latest C17_only_configured C17_reload_no_gap C17_update_others_untouched C17_waitinit C17_message C17_explorer_update '
                     'C17_explorer_reload',
         'trusted_base': ['Model/Discovery.v hand-written from discovery.go (one atomic step per critical section; translation of a job\'s groups is a '
